@@ -29,7 +29,7 @@ type callCase struct {
 // ---------------------------------------------------------------------------------------------
 // generation
 
-func keyGen() *aval.Gen { return &aval.Gen{S: S, MaxDepth: 3, TextBytes: true} }
+func keyGen() *aval.Gen { return &aval.Gen{S: S, MaxDepth: 3, TextBytes: true, NoPatchOperatorKeys: true} }
 
 func genKey(rt *rapid.T, g *aval.Gen, t schema.Type) *aval.V {
 	for i := 0; i < 20; i++ {
